@@ -26,6 +26,24 @@ PROPS = {
         "trusted": ["the alignment relation in Match/Align.v is the reading of the property text (unnamed tokens are compared by kind only, as the code documents)"],
         "assumptions": ["trees are the real tree-sitter parses, dumped per case"],
     },
+    "C04": {
+        "level_text": "Coq theorems (axiom-free) over a Gallina model of the rule evaluator (Rule::match_node_with_env for all 13 operators, ops::All/Any/Not, relational rules with stopBy/field, nthChild.ofRule, matches, RuleCore constraints) in which the environment is threaded exactly as the Rust threads it and is returned on failure too: a rejected rule leaves the environment untouched, the reported candidate of a relational rule / the winning `any` branch was evaluated from the original environment, `all` is the left-to-right union, and the pattern matcher only re-binds a name to structurally identical code. Tied on every run: random rule objects sharing variable names across all operators are loaded by the real loader and evaluated on every node of real trees; outcome, returned node and the full environment are diffed against the extracted model",
+        "level_note": "trusted: Coq kernel, extraction + driver, Rust harness (rule generator, wire encoding of rules); regex is an oracle (node ids the regex matches); the ellipsis look-ahead inside ONE pattern can leave a binding made for a rejected alignment (known finding, see known_findings.txt)",
+        "streams": ["c04"],
+        "cli": False,
+        "stream_timeout": 2400,
+        "trusted": ["regex atoms enter the model as the set of nodes whose text the real regex matches"],
+        "assumptions": ["rules reach the model as the serialised rule object plus the dumped PatternNode of every pattern string"],
+    },
+    "C05": {
+        "level_text": "Coq theorems over the same evaluator model as C04 and an independent, environment-free reference semantics `sem` written from the rule reference (conjunction/disjunction/negation; inside/has/precedes/follows as quantification over ancestors/descendants/later/earlier siblings within the stopBy window and field; kind/regex/range/nthChild on the node itself; matches = the utility): the evaluator decides exactly `sem` on well-formed documents. Tied on every run: random rule trees over all 13 operators evaluated with the real RuleCore::match_node on every node (root included) of real trees vs the extracted evaluator (tie) and vs the extracted `sem` (direct oracle: a disagreement is a failing input)",
+        "level_note": "trusted: Coq kernel, extraction + driver, Rust harness; regex is an oracle; zero-width recovery nodes and non-unique fields are outside the property",
+        "streams": ["c05"],
+        "cli": False,
+        "stream_timeout": 2400,
+        "trusted": ["regex atoms enter the model as the set of nodes whose text the real regex matches"],
+        "assumptions": ["documents without zero-width nodes (counted in the evidence)", "variable-disjoint rules for the reference-semantics oracle"],
+    },
     "C07": {
         "level_text": "Coq theorems (axiom-free) over a byte-level Gallina model of create_template / split_first_meta_var / replace_fixer / get_indent_at_offset / extract_with_deindent / indent_lines / remove_indent for ALL byte strings: the template scanner is characterised by an independent tokenizer and round-trips, substitution is verbatim, the indentation law and the self-rewrite identity hold under the property's own restriction. Tied on every run: implementation's generate_replacement / used_vars / insert_transformation vs the extracted model on generated templates, layouts and real captures; direct oracle: self-rewrite is a no-op on the implementation",
         "level_note": "trusted: Coq kernel, extraction + driver, Rust harness; convert (string_case) and regex replace are not modelled",
